@@ -198,6 +198,8 @@ CATALOG: List[Cfg] = [
        kind="awkward", depth=3, keys_quick=1, keys_thorough=1, horizon="20", max_states_quick=300, quick=False),
     _c("binpack-default", "bin_pack", "BinPack()", kind="default", depth=1, keys_quick=1,
        keys_thorough=1, horizon="20", quick=False),
+    _c("binpack-20-ems10", "bin_pack", "BinPack(G.bin_pack.RandomGenerator(20, 40), obs_num_ems=10)", kind="awkward",
+       depth=1, keys_quick=1, keys_thorough=2, horizon="20", quick=False, modeb="first"),
     # ---------------- FlatPack
     _c("flatpack-2x2", "flat_pack", "FlatPack(G.flat_pack.RandomFlatPackGenerator(2, 2))",
        keys_quick=1, keys_thorough=3, horizon="4", max_states_quick=4000),
